@@ -25,36 +25,40 @@ theorem initOp_initialized (a : Answers ι ρ ε) (st : St ι) (h : st.initializ
   simp [initOp, h]
 
 theorem call_initialized (a : Answers ι ρ ε) (st : St ι) (op : Op) (h : st.initialized = true) :
-    (call a st op).1.initialized = true ∧ (call a st op).1.nInit = st.nInit ∧ (call a st op).2.2 = [.request op] := by
+    (call a st op).1.initialized = true ∧ (call a st op).1.nInit = st.nInit
+    ∧ ((call a st op).2.2 = [.request op] ∨ (call a st op).2.2 = []) := by
   unfold call
   simp only [h, if_true]
+  cases a.rejects st.nOp <;> simp [h]
   cases a.calls st.nCall <;> simp [h]
 
 theorem step_initialized (a : Answers ι ρ ε) (st : St ι) (op : Op) (h : st.initialized = true) :
     (step a st op).1.initialized = true ∧ (step a st op).1.nInit = st.nInit ∧
-      (step a st op).2.2 = (if op = .init then [] else [.request op]) := by
+      (step a st op).2.2.all isOtherReq = true ∧ (step a st op).2.2.length ≤ 1 := by
   by_cases ho : op = .init
-  · subst ho; simp [step, initOp_initialized a st h, h]
-  · have hs : step a st op = call a st op := by cases op <;> simp_all [step]
-    have := call_initialized a st op h
-    simpa [hs, ho] using this
+  · subst ho; simp [step, step1, initOp_initialized a st h, h]
+  · have hs : step1 a st op = call a st op := by cases op <;> simp_all [step1]
+    obtain ⟨h1, h2, h3⟩ := call_initialized a st op h
+    simp only [step, hs]
+    refine ⟨h1, h2, ?_, ?_⟩
+    · rcases h3 with h3 | h3 <;> rw [h3]
+      · cases op <;> simp_all [isOtherReq]
+      · rfl
+    · rcases h3 with h3 | h3 <;> simp [h3]
 
-/-- an initialised client never initialises again: only the operations' own helpers run -/
+/-- an initialised client never initialises again: only the operations' own helpers run, at most
+one request per operation -/
 theorem run_initialized (a : Answers ι ρ ε) (st : St ι) (ops : List Op) (h : st.initialized = true) :
-    (run a st ops).1.initialized = true ∧ (run a st ops).2.2 = (ops.filter (· ≠ .init)).map Ev.request := by
+    (run a st ops).1.initialized = true ∧ (run a st ops).2.2.all isOtherReq = true
+    ∧ (run a st ops).2.2.length ≤ ops.length := by
   induction ops generalizing st with
   | nil => simp [run, h]
   | cons op ops ih =>
-    obtain ⟨h1, _, h3⟩ := step_initialized a st op h
-    obtain ⟨i1, i2⟩ := ih (step a st op).1 h1
-    refine ⟨by simpa [run] using i1, ?_⟩
-    simp only [run, i2, h3]
-    by_cases ho : op = .init <;> simp [ho, List.filter_cons]
-
-theorem all_other (ops : List Op) : ((ops.filter (· ≠ .init)).map Ev.request).all isOtherReq = true := by
-  simp only [List.all_eq_true, List.mem_map, List.mem_filter]
-  rintro _ ⟨op, ⟨_, ho⟩, rfl⟩
-  cases op <;> simp_all [isOtherReq]
+    obtain ⟨h1, _, h3, h4⟩ := step_initialized a st op h
+    obtain ⟨i1, i2, i3⟩ := ih (step a st op).1 h1
+    refine ⟨by simpa [run] using i1, ?_, ?_⟩
+    · simp only [run, List.all_append, h3, i2, Bool.and_self]
+    · simp only [run, List.length_append, List.length_cons]; omega
 
 theorem shape_succ (a : Answers ι ρ ε) (n0 : Nat) (tr : List Ev) (e : ε) (he : a.inits n0 = .error e)
     (h : Shape a (n0 + 1) tr) : Shape a n0 (Ev.request .init :: tr) := by
@@ -74,34 +78,42 @@ then the operation's helper if it has one) -/
 theorem step_fresh (a : Answers ι ρ ε) (st : St ι) (op : Op) (h : st.initialized = false) :
     (∃ e, a.inits st.nInit = .error e ∧ (step a st op).1.initialized = false ∧
         (step a st op).1.nInit = st.nInit + 1 ∧ (step a st op).2.2 = [.request .init]) ∨
-    (∃ v info, a.inits st.nInit = .ok (v, info) ∧ (step a st op).1.initialized = true ∧
-        (step a st op).2.2 = Ev.request .init :: Ev.setVersion v :: (if op = .init then [] else [.request op])) := by
+    (∃ v info rest, a.inits st.nInit = .ok (v, info) ∧ (step a st op).1.initialized = true ∧ rest.all isOtherReq = true ∧
+        (step a st op).2.2 = Ev.request .init :: Ev.setVersion v :: rest) := by
   cases hi : a.inits st.nInit with
   | error e =>
     left
     refine ⟨e, rfl, ?_⟩
-    cases op <;> simp [step, call, initOp, h, hi]
+    cases op <;> simp [step, step1, call, initOp, h, hi]
   | ok p =>
     right
     obtain ⟨v, info⟩ := p
-    refine ⟨v, info, rfl, ?_⟩
-    cases op <;> simp [step, call, initOp, h, hi] <;> (cases a.calls st.nCall <;> simp)
+    by_cases ho : op = .init
+    · subst ho
+      exact ⟨v, info, [], rfl, by simp [step, step1, initOp, h, hi], rfl, by simp [step, step1, initOp, h, hi]⟩
+    · cases hr : a.rejects st.nOp with
+      | some e =>
+        refine ⟨v, info, [], rfl, ?_, rfl, ?_⟩ <;> cases op <;> simp_all [step, step1, call, initOp]
+      | none =>
+        refine ⟨v, info, [.request op], rfl, ?_, ?_, ?_⟩
+        · cases op <;> simp_all [step, step1, call, initOp] <;> (cases a.calls st.nCall <;> simp)
+        · cases op <;> simp_all [isOtherReq]
+        · cases op <;> simp_all [step, step1, call, initOp] <;> (cases a.calls st.nCall <;> simp)
 
 theorem run_shape (a : Answers ι ρ ε) (st : St ι) (ops : List Op) (h : st.initialized = false) :
     Shape a st.nInit (run a st ops).2.2 := by
   induction ops generalizing st with
   | nil => exact ⟨0, by intro j hj; omega, Or.inl (by simp [run])⟩
   | cons op ops ih =>
-    rcases step_fresh a st op h with ⟨e, he, h1, h2, h3⟩ | ⟨v, info, hv, h1, h3⟩
+    rcases step_fresh a st op h with ⟨e, he, h1, h2, h3⟩ | ⟨v, info, rest, hv, h1, hrest, h3⟩
     · have := ih (step a st op).1 h1
       rw [h2] at this
       have := shape_succ a st.nInit _ e he this
       simpa [run, h3] using this
-    · obtain ⟨_, r2⟩ := run_initialized a (step a st op).1 ops h1
-      refine ⟨0, by intro j hj; omega, Or.inr ⟨v, info, ((op :: ops).filter (· ≠ .init)).map Ev.request,
+    · obtain ⟨_, r2, _⟩ := run_initialized a (step a st op).1 ops h1
+      refine ⟨0, by intro j hj; omega, Or.inr ⟨v, info, rest ++ (run a (step a st op).1 ops).2.2,
         by simpa using hv, ?_, ?_⟩⟩
-      · exact all_other (op :: ops)
-      · simp only [run, h3, r2, List.replicate_zero, List.nil_append, List.cons_append]
-        by_cases ho : op = .init <;> simp [ho, List.filter_cons]
+      · simp only [List.all_append, hrest, r2, Bool.and_self]
+      · simp only [run, h3, List.replicate_zero, List.nil_append, List.cons_append]
 
 end Verif.Model.Client
